@@ -149,7 +149,7 @@ def r04c(P, R):
     R.check("R04-c", "variable-default-nonnull", "is_null" in calls and "is_nonnull" in calls, "relaxation requires a non-null default and a nullable variable type",
             "the default-value relaxation does not test `default is not null` and `variable type is nullable`", loc=f.loc())
     g = P.fn(CK + "common::check_type_compatibility")
-    ms = [m for m in g.walk() if m.get("k") == "Match" and m.get("src") == "Normal" and m["scrut"].get("k") == "Tup"]
+    ms = [m for m in g.walk() if m.get("k") == "Match" and m.get("src") == "Normal" and m["scrut"].get("k") == "Tup" and not m.get("x")]
     R.floor("R04-c", "compatibility match", len(ms), 1)
     m = ms[0]
     pvg = Prov(g)
@@ -191,7 +191,7 @@ def r04c(P, R):
 def r04d(P, R):
     """fragment applicability: every composite (scope, condition) pair has its own overlap test; no catch-all swallows a pair"""
     f = P.fn(CK + "operation_checker::check_fragment_spread_core")
-    ms = [m for m in f.walk() if m.get("k") == "Match" and m.get("src") == "Normal" and m["scrut"].get("k") == "Tup"]
+    ms = [m for m in f.walk() if m.get("k") == "Match" and m.get("src") == "Normal" and m["scrut"].get("k") == "Tup" and not m.get("x")]
     R.floor("R04-d", "applicability match", len(ms), 1)
     m = ms[0]
     pv = Prov(f)
